@@ -8,7 +8,7 @@
         valid / validF : `cueValid` with the permissive / literal reading of CUE's float types; strict : `cueValid` strict;
         frag : FragCue ∧ `agree` on the REAL IR; src / msrc : srcDen of the real / the model's IR
 
-  CV ::= (cv (i ikind kind op nargs enumOK floatish) [(ref "path" "name" "pkg")] [(dflt CS "refpath" eqSelf) | (ldflt eqSelf)]
+  CV ::= (cv (i ikind kind op nargs enumOK floatish) [(ref "path" "name" "pkg" badSelector)] [(dflt CS "refpath" eqSelf) | (ldflt eqSelf)]
              (conc bool CS) (attrs (at "name" (args ("k" "v")…) LOOK LOOK)…) (docs "text"…) [(pair eq sub "ref0")] (orsplit bool…)
              [(args (arg bool CV)…)] [(andsplit (c op "call" CS "ref" bool CS)…)] [(num "syn" "csyn" bool (lits ("text" VAL)…))]
              [(lst bool none|(some CV))] [(anystr evalop bool bool none|(some CV))] [(fields (f "label" bool bool CV)…)])
@@ -66,6 +66,8 @@ partial def cvItemIn (a : CVAcc) : Sexp → Option CVAcc
   | .list [.atom "i", .atom ik, .atom k, .atom op, .atom n, .atom eok, .atom _fl] => do
     some { a with i := { a.i with ikind := ik, kind := k, op := op, nargs := (← n.toNat?), enumOK := eok == "true" } }
   | .list [.atom "ref", .str p, .str n, .str pkg] => some { a with i := { a.i with refPath := p, refName := n, refPkg := pkg } }
+  | .list [.atom "ref", .str p, .str n, .str pkg, .atom bad] =>
+    some { a with i := { a.i with refPath := p, refName := n, refPkg := pkg, refBadSel := bad == "true" } }
   | .list [.atom "dflt", d, .str rp, .atom eq] => do
     some { a with i := { a.i with hasDefault := true, dflt := (← csIn d), dfltRefPath := rp, dfltEqSelf := eq == "true" } }
   | .list [.atom "ldflt", .atom eq] => some { a with i := { a.i with dfltEqSelf := eq == "true" } }
